@@ -93,6 +93,9 @@ def main(argv=None):
             s.setdefault('seed', args.seed)
             s.setdefault('provision', getattr(mod, 'PROVISION', True))
         timeout = getattr(mod, 'SHARD_TIMEOUT', {}).get(args.tier, 600 if args.tier == 'quick' else 7200)
+        for s in shards:
+            # the shard's own watchdog (traceback dump + exit) fires a little before the runner gives up on it
+            s.setdefault('wall_limit', max(60, timeout - 30))
         results, problems = [], []
         with concurrent.futures.ThreadPoolExecutor(max(1, min(args.jobs, len(shards)))) as ex:
             futs = [ex.submit(run_one, prop, s, workdir, i, timeout) for i, s in enumerate(shards)]
